@@ -14,7 +14,7 @@ from .common import cZ, cnat, cbool, clist, copt, cpair
 # Which model of SneakyPool.map the code is compared with: False = the code as it is in the pinned
 # tree (results yielded in completion order), True = after proposed_fixes/C14-map-order.diff
 # (ordered blocking collection).  The lead flips this when the fix is applied.
-MAP_FIXED = os.environ.get("C14_MAP_FIXED", "0") == "1"   # default: the code as it is
+MAP_FIXED = os.environ.get("C14_MAP_FIXED", "1") == "1"   # default: the repaired code (fix c80ac95 applied in /repo)
 
 ORDER_CLASS = "map-order-multiprocess"
 RACE_CLASS = "run-jobs-startup-race"
